@@ -1,9 +1,95 @@
-// Contract-only stand-in for the parts of `reqwest` that zeep's helper code names (trusted base).
+// Contract-only stand-in for the parts of `reqwest` (0.12) that zeep's helper code names (trusted base).
+// A request builder carries a ghost model of the request; every network-capable call requires
+// `net_allowed()`; `send` additionally requires that the request is the one the caller was asked
+// to send (`want_*`, tied to the caller's arguments by the caller's own precondition).
 //# section: reqwest-begin
 pub mod reqwest {
     use vstd::prelude::*;
 //# section: reqwest-error
     #[verifier::external_body]
     pub struct Error { _p: () }
+//# section: reqwest-client
+    pub struct ReqModel {
+        pub post: bool,
+        pub url: Seq<char>,
+        pub body: Option<Seq<char>>,
+        pub auth: Option<(Seq<char>, Option<Seq<char>>)>,
+    }
+    pub struct RespModel { pub status: int, pub body: Seq<char> }
+
+    // ghost parameters of one exchange
+    pub uninterp spec fn net_allowed() -> bool;
+    pub uninterp spec fn want_url() -> Seq<char>;
+    pub uninterp spec fn want_body() -> Seq<char>;
+    pub uninterp spec fn want_auth() -> Option<(Seq<char>, Option<Seq<char>>)>;
+    pub uninterp spec fn transport_ok() -> bool;      // the request reached the server and a response head came back
+    pub uninterp spec fn the_response() -> RespModel; // that response
+    pub uninterp spec fn body_read_ok() -> bool;      // the response body could be read completely as text
+    // text produced by Display for a value
+    pub uninterp spec fn display<T>(x: T) -> Seq<char>;
+
+    #[verifier::external_body]
+    pub struct Client { _p: () }
+    #[verifier::external_body]
+    pub struct RequestBuilder { _p: () }
+    #[verifier::external_body]
+    pub struct Response { _p: () }
+
+    pub trait IntoUrl { spec fn url_view(&self) -> Seq<char>; }
+    impl IntoUrl for &str { open spec fn url_view(&self) -> Seq<char> { self@ } }
+    impl IntoUrl for &String { open spec fn url_view(&self) -> Seq<char> { self@ } }
+    impl IntoUrl for String { open spec fn url_view(&self) -> Seq<char> { self@ } }
+    pub trait IntoBody { spec fn body_view(&self) -> Seq<char>; }
+    impl IntoBody for String { open spec fn body_view(&self) -> Seq<char> { self@ } }
+    impl IntoBody for &str { open spec fn body_view(&self) -> Seq<char> { self@ } }
+
+    impl Client {
+        #[verifier::external_body]
+        pub fn new() -> (c: Client) { unimplemented!() }
+        // builds a request, performs no I/O
+        #[verifier::external_body]
+        pub fn post<U: IntoUrl>(&self, url: U) -> (b: RequestBuilder)
+            ensures b.model() == (ReqModel { post: true, url: url.url_view(), body: None, auth: None })
+        { unimplemented!() }
+    }
+    impl RequestBuilder {
+        pub uninterp spec fn model(&self) -> ReqModel;
+        #[verifier::external_body]
+        pub fn body<T: IntoBody>(self, body: T) -> (b: RequestBuilder)
+            ensures b.model() == (ReqModel { body: Some(body.body_view()), ..self.model() })
+        { unimplemented!() }
+        #[verifier::external_body]
+        pub fn basic_auth<U: core::fmt::Display, P: core::fmt::Display>(self, username: U, password: Option<P>) -> (b: RequestBuilder)
+            ensures b.model() == (ReqModel {
+                auth: Some((display(username), match password { Some(p) => Some(display(p)), None => None })), ..self.model() })
+        { unimplemented!() }
+        // the only operation that puts a request on the wire; consumes the builder
+        #[verifier::external_body]
+        pub async fn send(self) -> (r: Result<Response, Error>)
+            requires
+                net_allowed(),                          // [label: net-allowed]
+                self.model().post,                      // [label: request-is-post]
+                self.model().url == want_url(),         // [label: request-url]
+                self.model().body == Some(want_body()), // [label: request-body]
+                self.model().auth == want_auth(),       // [label: request-auth]
+            ensures
+                r is Ok <==> transport_ok(),
+                r is Ok ==> r->Ok_0.model() == the_response(),
+        { unimplemented!() }
+    }
+    impl Response {
+        pub uninterp spec fn model(&self) -> RespModel;
+        #[verifier::external_body]
+        pub fn error_for_status_ref(&self) -> (r: Result<&Response, Error>)
+            ensures r is Err <==> 400 <= self.model().status < 600,
+                    r is Ok ==> r->Ok_0 == self,
+        { unimplemented!() }
+        #[verifier::external_body]
+        pub async fn text(self) -> (r: Result<String, Error>)
+            requires net_allowed(), // [label: net-allowed]
+            ensures r is Ok <==> body_read_ok(),
+                    r is Ok ==> r->Ok_0@ == self.model().body,
+        { unimplemented!() }
+    }
 //# section: reqwest-end
 }
